@@ -242,6 +242,19 @@ where
     }
 }
 
+/// A sender in transport, borrowing the parts of the sender being serialized.
+///
+/// Serialization must not consume the sender, since the item containing it
+/// may be serialized more than once (buffered attempt followed by streaming).
+#[derive(Serialize)]
+#[serde(rename = "TransportedSender")]
+#[serde(bound(serialize = "Codec: codec::Codec"))]
+struct TransportedSenderRef<'a, Codec> {
+    bin_sender: &'a Option<bin::Sender>,
+    size_mode: &'a SizeMode<Codec>,
+    bytes_written: u64,
+}
+
 impl<Codec> Serialize for Sender<Codec>
 where
     Codec: codec::Codec,
@@ -250,14 +263,15 @@ where
     where
         S: serde::Serializer,
     {
-        let bin_sender = self.bin_sender.lock().unwrap().take();
-        let size_mode = mem::replace(
-            &mut *self.size_mode.lock().unwrap(),
-            SizeMode::Known(0), // Placeholder, sender is consumed anyway
-        );
+        let bin_sender = self.bin_sender.lock().unwrap();
+        let size_mode = self.size_mode.lock().unwrap();
 
-        TransportedSender::<Codec> { bin_sender, size_mode, bytes_written: self.bytes_written }
-            .serialize(serializer)
+        TransportedSenderRef::<Codec> {
+            bin_sender: &bin_sender,
+            size_mode: &size_mode,
+            bytes_written: self.bytes_written,
+        }
+        .serialize(serializer)
     }
 }
 
